@@ -174,6 +174,34 @@ def run(res, tier, seed, driver_ok):
             Fb = np.asarray(Fb.getData() if hasattr(Fb, 'getData') else Fb, dtype=float).reshape(-1)
             if np.max(np.abs(Fb - F)) > 1e-6 * max(1.0, np.linalg.norm(F)):
                 bad('staticForcesInv', 'mapping torques back does not return the wrench at a full-rank configuration', inp, {'diff': G.maxdiff(Fb, F)})
+        # 4b. the same clause next to (not at) a singularity: one joint is walked towards the configuration where the Jacobian loses rank
+        # until the condition number lies in (1e3, 1e4) — full rank, but a truncated pseudo-inverse would drop the weakest direction
+        if nj >= 6 and n_ % 2 == 0:
+            for j_ in rnd.sample(range(nj), nj):
+                found = None
+                for target in (0.0, math.pi / 2, -math.pi / 2):
+                    for eps_ in (3e-2, 1e-2, 3e-3, 1e-3, 5e-4, 2e-4):
+                        th2 = th.copy(); th2[j_] = target + eps_
+                        if not (mins[j_] <= th2[j_] <= maxs[j_]):
+                            continue
+                        J2 = np.asarray(arm.jacobian(th2.copy()), dtype=float)
+                        c2 = np.linalg.cond(J2)
+                        if 1.5e3 < c2 < 8e3 and np.linalg.matrix_rank(J2) == 6:
+                            found = (th2, J2, c2); break
+                    if found:
+                        break
+                if found:
+                    th2, J2, c2 = found
+                    stats['near_singular_inverse_checked'] = stats.get('near_singular_inverse_checked', 0) + 1
+                    with contextlib.redirect_stdout(io.StringIO()):
+                        tau2 = np.asarray(arm.staticForces(Wrench(F.copy().reshape((6, 1))), th2.copy()), dtype=float).reshape(-1)
+                        Fb2 = arm.staticForcesInv(tau2.copy(), th2.copy())
+                    Fb2 = np.asarray(Fb2.getData() if hasattr(Fb2, 'getData') else Fb2, dtype=float).reshape(-1)
+                    if np.max(np.abs(Fb2 - F)) > 1e-6 * max(1.0, np.linalg.norm(F)):
+                        bad('staticForcesInv', 'mapping torques back does not return the wrench at a full-rank configuration', dict(inp, theta=th2.tolist(), cond=float(c2)), {'diff': G.maxdiff(Fb2, F)})
+                    with contextlib.redirect_stdout(io.StringIO()):
+                        arm.FK(th.copy())
+                    break
         # 5. link-mass variant
         if arm._link_masses is not None and len(arm._link_masses) == nj + 1:
             try:
